@@ -224,4 +224,556 @@ theorem sim_vector_set (H : Hash) (et : Ty) (len : Nat) (hwf : et.wf = true) (vs
         (by simp [Impl.apply, construct_none_of_not_wt H et x hwf hx])
   · exact sim_none (by simp [applyOp, hi]) (by simp [Impl.apply, Nat.le_of_not_lt hi])
 
+/-! ## 4. lists -/
+
+theorem depth_bound_nonbasic (et : Ty) (hb : ¬ et.isBasic = true) (lim : Nat) :
+    lim ≤ 2 ^ getDepth (chunkLen et lim) := by
+  rw [chunkLen_nonbasic et lim hb]; exact le_two_pow_getDepth lim
+
+theorem sim_list_set (H : Hash) (et : Ty) (lim : Nat) (hwf : et.wf = true) (hlim : lim < 2 ^ 256)
+    (vs : List Val) (n : Node) (h : Impl.Repr H (.list et lim) (.seq vs) n) (i : Nat) (x : Val) :
+    Sim H (.list et lim) (.seq vs) n (.set i x) := by
+  simp only [Impl.Repr] at h
+  obtain ⟨hlen, c, rfl, h⟩ := h
+  have hll := listLength_mixin H c vs.length (by omega)
+  by_cases hi : i < vs.length
+  · by_cases hx : WT et x = true
+    · obtain ⟨vn, hvn, hrvn⟩ := repr_exists H et x hwf hx
+      have ha : applyOp (.list et lim) (.seq vs) (.set i x) = some (.seq (vs.set i x)) := by
+        simp [applyOp, hi, hx]
+      by_cases hb : et.isBasic = true
+      · simp only [hb, if_true] at h
+        obtain ⟨hwt, hct⟩ := h
+        obtain ⟨hper, -, -⟩ := hper_of_basic et hwf hb
+        have hcl := packInts_length' et hwf hb (vs.map numOf)
+        rw [List.length_map] at hcl
+        have hj : i / (32 / et.basicSize) < (packInts et.basicSize (vs.map numOf)).length := by
+          rw [hcl]; exact (DefaultNode.packed_chunk_lt et hwf hb vs.length i hi).1
+        obtain ⟨hg, hset⟩ := mix_splice hct (lenNode vs.length) _ hj
+        obtain ⟨c', hs, hct'⟩ := hset (spliceBytes et.basicSize
+          ((packInts et.basicSize (vs.map numOf))[i / (32 / et.basicSize)])
+          (i % (32 / et.basicSize)) (numOf x))
+        refine sim_some ha (n' := mixInNode c' vs.length) ?_ ?_
+        · simp only [Impl.apply, hll, ge_iff_le, Nat.not_le.2 hi, if_false, hvn, hb, if_true]
+          simp only [mixInNode, hg, spliceBasic_eq, Node.root, hs]
+        · simp only [Impl.Repr, hb, if_true, List.length_set]
+          refine ⟨hlen, c', rfl, wt_set hwt i x hx, ?_⟩
+          rw [List.map_set, packInts_set _ hper _ _ _ (by simpa using hi) hj]
+          exact hct'
+      · simp only [hb, Bool.false_eq_true, if_false] at h
+        obtain ⟨ns, hall, hct⟩ := h
+        have hl := allRel_length hall
+        obtain ⟨c', hs, hct'⟩ := mix_set hct (lenNode vs.length) i (by omega) vn
+        refine sim_some ha (n' := mixInNode c' vs.length) ?_ ?_
+        · simp only [Impl.apply, hll, ge_iff_le, Nat.not_le.2 hi, if_false, hvn, hb,
+            Bool.false_eq_true]
+          simp only [mixInNode, hs]
+        · simp only [Impl.Repr, hb, Bool.false_eq_true, if_false, List.length_set]
+          exact ⟨hlen, c', rfl, ns.set i vn, allRel_set hall i x vn hrvn, hct'⟩
+    · exact sim_none (by simp [applyOp, hx])
+        (by simp [Impl.apply, hll, construct_none_of_not_wt H et x hwf hx])
+  · exact sim_none (by simp [applyOp, hi]) (by simp [Impl.apply, hll, Nat.le_of_not_lt hi])
+
+theorem wt_append {et : Ty} {vs : List Val} (hwt : ∀ v ∈ vs, WT et v = true) (x : Val)
+    (hx : WT et x = true) : ∀ v ∈ vs ++ [x], WT et v = true := by
+  intro v hv
+  rcases List.mem_append.1 hv with h | h
+  · exact hwt v h
+  · rw [List.mem_singleton.1 h]; exact hx
+
+theorem spliceBasic_zeroNode (H : Hash) (size j v : Nat) :
+    spliceBasic H size (zeroNode H 0) j v = .leaf (spliceBytes size zeroChunk j v) := rfl
+
+theorem sim_list_append (H : Hash) (et : Ty) (lim : Nat) (hwf : et.wf = true) (hlim : lim < 2 ^ 256)
+    (vs : List Val) (n : Node) (h : Impl.Repr H (.list et lim) (.seq vs) n) (x : Val) :
+    Sim H (.list et lim) (.seq vs) n (.append x) := by
+  simp only [Impl.Repr] at h
+  obtain ⟨hlen, c, rfl, h⟩ := h
+  have hll := listLength_mixin H c vs.length (by omega)
+  by_cases hlt : vs.length < lim
+  · by_cases hx : WT et x = true
+    · obtain ⟨vn, hvn, hrvn⟩ := repr_exists H et x hwf hx
+      have ha : applyOp (.list et lim) (.seq vs) (.append x) = some (.seq (vs ++ [x])) := by
+        simp [applyOp, hlt, hx]
+      by_cases hb : et.isBasic = true
+      · simp only [hb, if_true] at h
+        obtain ⟨hwt, hct⟩ := h
+        obtain ⟨hper, hmul, -⟩ := hper_of_basic et hwf hb
+        have hcl := packInts_length' et hwf hb (vs.map numOf)
+        rw [List.length_map] at hcl
+        have hcl2 := packInts_length et.basicSize hper (vs.map numOf)
+        rw [List.length_map, ceil_div_eq _ _ hper] at hcl2
+        have hcap := (DefaultNode.packed_chunk_lt et hwf hb lim vs.length hlt).1
+        have hcap2 := le_two_pow_getDepth (chunkLen et lim)
+        by_cases hz : vs.length % (32 / et.basicSize) = 0
+        · rw [if_pos hz, Nat.add_zero] at hcl2
+          have hpush := mix_push hct (lenNode vs.length) (by rw [List.length_map, hcl2]; omega)
+            (.leaf (spliceBytes et.basicSize zeroChunk 0 (numOf x)))
+          rw [List.length_map, hcl2] at hpush
+          obtain ⟨c', hs, hct'⟩ := hpush
+          refine sim_some ha (n' := mixInNode c' (vs.length + 1)) ?_ ?_
+          · simp only [Impl.apply, hll, ge_iff_le, Nat.not_le.2 hlt, if_false, hvn, hb, if_true,
+              hz, beq_self_eq_true, spliceBasic_zeroNode]
+            simp only [mixInNode, hs, Option.bind_some, rebindRight]
+          · simp only [Impl.Repr, hb, if_true, List.length_append, List.length_singleton]
+            refine ⟨hlt, c', rfl, wt_append hwt x hx, ?_⟩
+            rw [List.map_append, List.map_singleton,
+              packInts_append_new _ hper hmul _ _ (by simpa using hz), List.map_append]
+            exact hct'
+        · rw [if_neg hz] at hcl2
+          have hj : vs.length / (32 / et.basicSize)
+              < (packInts et.basicSize (vs.map numOf)).length := by omega
+          obtain ⟨hg, hset⟩ := mix_splice hct (lenNode vs.length) _ hj
+          obtain ⟨c', hs, hct'⟩ := hset (spliceBytes et.basicSize
+            ((packInts et.basicSize (vs.map numOf))[vs.length / (32 / et.basicSize)])
+            (vs.length % (32 / et.basicSize)) (numOf x))
+          refine sim_some ha (n' := mixInNode c' (vs.length + 1)) ?_ ?_
+          · simp only [Impl.apply, hll, ge_iff_le, Nat.not_le.2 hlt, if_false, hvn, hb, if_true,
+              beq_iff_eq, hz]
+            simp only [mixInNode, hg, spliceBasic_eq, Node.root, hs, Option.bind_some, rebindRight]
+          · simp only [Impl.Repr, hb, if_true, List.length_append, List.length_singleton]
+            refine ⟨hlt, c', rfl, wt_append hwt x hx, ?_⟩
+            have hj' : (vs.map numOf).length / (32 / et.basicSize)
+                < (packInts et.basicSize (vs.map numOf)).length := by simpa using hj
+            have := packInts_append_same _ hper (vs.map numOf) (numOf x) (by simpa using hz) hj'
+            simp only [List.length_map] at this
+            rw [List.map_append, List.map_singleton, this]
+            exact hct'
+      · simp only [hb, Bool.false_eq_true, if_false] at h
+        obtain ⟨ns, hall, hct⟩ := h
+        have hl := allRel_length hall
+        have hcap := depth_bound_nonbasic et hb lim
+        have hpush := mix_push hct (lenNode vs.length) (by omega) vn
+        rw [← hl] at hpush
+        obtain ⟨c', hs, hct'⟩ := hpush
+        refine sim_some ha (n' := mixInNode c' (vs.length + 1)) ?_ ?_
+        · simp only [Impl.apply, hll, ge_iff_le, Nat.not_le.2 hlt, if_false, hvn, hb,
+            Bool.false_eq_true]
+          simp only [mixInNode, hs, Option.bind_some, rebindRight]
+        · simp only [Impl.Repr, hb, Bool.false_eq_true, if_false, List.length_append,
+            List.length_singleton]
+          exact ⟨hlt, c', rfl, ns ++ [vn], allRel_append_singleton hall x vn hrvn, hct'⟩
+    · exact sim_none (by simp [applyOp, hx])
+        (by simp [Impl.apply, hll, construct_none_of_not_wt H et x hwf hx])
+  · exact sim_none (by simp [applyOp, hlt]) (by simp [Impl.apply, hll, Nat.le_of_not_lt hlt])
+
+theorem mem_of_mem_dropLast {α} {l : List α} {a : α} (h : a ∈ l.dropLast) : a ∈ l := by
+  rw [List.dropLast_eq_take] at h; exact List.mem_of_mem_take h
+
+theorem sim_list_pop (H : Hash) (et : Ty) (lim : Nat) (hwf : et.wf = true) (hlim : lim < 2 ^ 256)
+    (vs : List Val) (n : Node) (h : Impl.Repr H (.list et lim) (.seq vs) n) :
+    Sim H (.list et lim) (.seq vs) n .pop := by
+  simp only [Impl.Repr] at h
+  obtain ⟨hlen, c, rfl, h⟩ := h
+  have hll := listLength_mixin H c vs.length (by omega)
+  by_cases hpos : vs.length = 0
+  · exact sim_none (by simp [applyOp, hpos]) (by simp only [Impl.apply, hll]; simp [hpos])
+  · have ha : applyOp (.list et lim) (.seq vs) .pop = some (.seq vs.dropLast) := by
+      simp [applyOp, hpos]
+    have hvne : vs ≠ [] := fun e => hpos (by rw [e]; rfl)
+    by_cases hb : et.isBasic = true
+    · simp only [hb, if_true] at h
+      obtain ⟨hwt, hct⟩ := h
+      obtain ⟨hper, hmul, hsz⟩ := hper_of_basic et hwf hb
+      have hcl := packInts_length' et hwf hb (vs.map numOf)
+      rw [List.length_map] at hcl
+      have hj : (vs.length - 1) / (32 / et.basicSize)
+          < (packInts et.basicSize (vs.map numOf)).length := by
+        rw [hcl]; exact (DefaultNode.packed_chunk_lt et hwf hb vs.length _ (by omega)).1
+      have hle := ct_length_le hct
+      rw [List.length_map] at hle
+      have hpow : 2 ^ (getDepth (chunkLen et lim) + 1) = 2 * 2 ^ getDepth (chunkLen et lim) := by
+        rw [Nat.pow_succ]; omega
+      have hnotge : ¬ (vs.length - 1) / (32 / et.basicSize)
+          ≥ 2 ^ (getDepth (chunkLen et lim) + 1) := by omega
+      have hwt' : ∀ v ∈ vs.dropLast, WT et v = true := fun v hv => hwt v (mem_of_mem_dropLast hv)
+      by_cases hz : (vs.length - 1) % (32 / et.basicSize) = 0
+      · obtain ⟨hrm, hidx⟩ := packInts_pop_remove et.basicSize hper hmul (vs.map numOf)
+          (by simp; omega) (by simpa using hz)
+        rw [List.length_map] at hidx
+        have hcne : (packInts et.basicSize (vs.map numOf)).map Node.leaf ≠ [] := by
+          intro e
+          have := congrArg List.length e
+          simp only [List.length_map, List.length_nil] at this
+          omega
+        obtain ⟨c1, hs, -, hfin⟩ := ct_popFinish hct hcne (lenNode vs.length) (IsZero.summary 0)
+        rw [List.length_map, ← hidx] at hs hfin
+        obtain ⟨c2, hpf, hct'⟩ := hfin ((vs.length - 1) / (32 / et.basicSize) % 2 == 0 && true)
+          (vs.length - 1)
+        refine sim_some ha (n' := mixInNode c2 (vs.length - 1)) ?_ ?_
+        · simp only [Impl.apply, hll, hpos, if_false, hb, if_true, hnotge, hz, beq_self_eq_true,
+            spliceBasic_zeroNode, spliceBytes_zero_zero _ hsz]
+          simp only [mixInNode] at hs hpf ⊢
+          have hzn : Node.leaf zeroChunk = zeroNode H 0 := rfl
+          rw [hzn, hs]
+          simp only [hpf]
+        · simp only [Impl.Repr, hb, if_true, List.length_dropLast]
+          refine ⟨by omega, c2, rfl, hwt', ?_⟩
+          rw [List.map_dropLast, hrm, List.map_dropLast]
+          exact hct'
+      · obtain ⟨hg, hset⟩ := mix_splice hct (lenNode vs.length) _ hj
+        obtain ⟨c', hs, hct'⟩ := hset (spliceBytes et.basicSize
+          ((packInts et.basicSize (vs.map numOf))[(vs.length - 1) / (32 / et.basicSize)])
+          ((vs.length - 1) % (32 / et.basicSize)) 0)
+        have hzb : ((vs.length - 1) % (32 / et.basicSize) == 0) = false := by simp [hz]
+        refine sim_some ha (n' := mixInNode c' (vs.length - 1)) ?_ ?_
+        · simp only [Impl.apply, hll, hpos, if_false, hb, if_true, hnotge, hzb, Bool.false_eq_true]
+          simp only [mixInNode, hg, spliceBasic_eq, Node.root, hs, Bool.and_false, popFinish_false]
+        · simp only [Impl.Repr, hb, if_true, List.length_dropLast]
+          refine ⟨by omega, c', rfl, hwt', ?_⟩
+          have hj' : ((vs.map numOf).length - 1) / (32 / et.basicSize)
+              < (packInts et.basicSize (vs.map numOf)).length := by simpa using hj
+          have := packInts_pop_same _ hper (vs.map numOf) (by simp; omega) (by simpa using hz) hj'
+          simp only [List.length_map] at this
+          rw [List.map_dropLast, this]
+          exact hct'
+    · simp only [hb, Bool.false_eq_true, if_false] at h
+      obtain ⟨ns, hall, hct⟩ := h
+      have hl := allRel_length hall
+      have hnne : ns ≠ [] := by
+        intro e; rw [e] at hl; exact hpos hl
+      obtain ⟨c1, hs, -, hfin⟩ := ct_popFinish hct hnne (lenNode vs.length) (IsZero.summary 0)
+      rw [← hl] at hs hfin
+      obtain ⟨c2, hpf, hct'⟩ := hfin ((vs.length - 1) % 2 == 0) (vs.length - 1)
+      refine sim_some ha (n' := mixInNode c2 (vs.length - 1)) ?_ ?_
+      · simp only [Impl.apply, hll, hpos, if_false, hb, Bool.false_eq_true]
+        simp only [mixInNode] at hs hpf ⊢
+        simp only [hs, hpf]
+      · simp only [Impl.Repr, hb, Bool.false_eq_true, if_false, List.length_dropLast]
+        exact ⟨by omega, c2, rfl, ns.dropLast, allRel_dropLast hall, hct'⟩
+
+/-! ## 5. bitvectors and bitlists -/
+
+theorem chunkWithBit_zeroNode (H : Hash) (i : Nat) (v : Bool) :
+    chunkWithBit H (zeroNode H 0) i v = .leaf (bitSplice zeroChunk i v) := rfl
+
+theorem sim_bitvector_set (H : Hash) (len : Nat) (bs : List Bool) (n : Node)
+    (h : Impl.Repr H (.bitvector len) (.bits bs) n) (i : Nat) (x : Val) :
+    Sim H (.bitvector len) (.bits bs) n (.set i x) := by
+  simp only [Impl.Repr] at h
+  obtain ⟨hlen, hct⟩ := h
+  cases x with
+  | num b =>
+    by_cases hi : i < len
+    · have hj : i / 256 < (packBits bs).length := by rw [packBits_length']; omega
+      obtain ⟨hg, hset⟩ := ct_splice hct _ hj
+      obtain ⟨c', hs, hct'⟩ := hset (bitSplice ((packBits bs)[i / 256]) i (b != 0))
+      refine sim_some (v' := .bits (bs.set i (b != 0))) (n' := c') ?_ ?_ ?_
+      · simp [applyOp, hi, hlen]
+      · simp only [Impl.apply, ge_iff_le, Nat.not_le.2 hi, if_false, hg, Option.bind_some,
+          chunkWithBit_eq, Node.root, hs]
+      · simp only [Impl.Repr, List.length_set]
+        refine ⟨hlen, ?_⟩
+        rw [packBits_set bs i _ (by omega) hj]
+        exact hct'
+    · exact sim_none (by simp [applyOp, hi]) (by simp [Impl.apply, Nat.le_of_not_lt hi])
+  | bits _ => exact sim_none (by simp [applyOp]) (by simp [Impl.apply])
+  | bytes _ => exact sim_none (by simp [applyOp]) (by simp [Impl.apply])
+  | seq _ => exact sim_none (by simp [applyOp]) (by simp [Impl.apply])
+  | un _ _ => exact sim_none (by simp [applyOp]) (by simp [Impl.apply])
+  | none => exact sim_none (by simp [applyOp]) (by simp [Impl.apply])
+
+theorem sim_bitlist_set (H : Hash) (lim : Nat) (hlim : lim < 2 ^ 256) (bs : List Bool) (n : Node)
+    (h : Impl.Repr H (.bitlist lim) (.bits bs) n) (i : Nat) (x : Val) :
+    Sim H (.bitlist lim) (.bits bs) n (.set i x) := by
+  simp only [Impl.Repr] at h
+  obtain ⟨hlen, c, rfl, hct⟩ := h
+  have hll := listLength_mixin H c bs.length (by omega)
+  cases x with
+  | num b =>
+    by_cases hi : i < bs.length
+    · have hj : i / 256 < (packBits bs).length := by rw [packBits_length']; omega
+      obtain ⟨hg, hset⟩ := mix_splice hct (lenNode bs.length) _ hj
+      obtain ⟨c', hs, hct'⟩ := hset (bitSplice ((packBits bs)[i / 256]) i (b != 0))
+      refine sim_some (v' := .bits (bs.set i (b != 0))) (n' := mixInNode c' bs.length) ?_ ?_ ?_
+      · simp [applyOp, hi]
+      · simp only [Impl.apply, hll, ge_iff_le, Nat.not_le.2 hi, if_false]
+        simp only [mixInNode, hg, Option.bind_some, chunkWithBit_eq, Node.root, hs]
+      · simp only [Impl.Repr, List.length_set]
+        refine ⟨hlen, c', rfl, ?_⟩
+        rw [packBits_set bs i _ hi hj]
+        exact hct'
+    · exact sim_none (by simp [applyOp, hi]) (by simp [Impl.apply, hll, Nat.le_of_not_lt hi])
+  | bits _ => exact sim_none (by simp [applyOp]) (by simp [Impl.apply, hll])
+  | bytes _ => exact sim_none (by simp [applyOp]) (by simp [Impl.apply, hll])
+  | seq _ => exact sim_none (by simp [applyOp]) (by simp [Impl.apply, hll])
+  | un _ _ => exact sim_none (by simp [applyOp]) (by simp [Impl.apply, hll])
+  | none => exact sim_none (by simp [applyOp]) (by simp [Impl.apply, hll])
+
+theorem sim_bitlist_append (H : Hash) (lim : Nat) (hlim : lim < 2 ^ 256) (bs : List Bool) (n : Node)
+    (h : Impl.Repr H (.bitlist lim) (.bits bs) n) (x : Val) :
+    Sim H (.bitlist lim) (.bits bs) n (.append x) := by
+  simp only [Impl.Repr] at h
+  obtain ⟨hlen, c, rfl, hct⟩ := h
+  have hll := listLength_mixin H c bs.length (by omega)
+  cases x with
+  | num b =>
+    by_cases hlt : bs.length < lim
+    · have hcap := le_two_pow_getDepth ((lim + 255) / 256)
+      have hcl := packBits_length' bs
+      by_cases hz : bs.length % 256 = 0
+      · have hcl2 : (packBits bs).length = bs.length / 256 := by omega
+        have hpush := mix_push hct (lenNode bs.length) (by rw [List.length_map]; omega)
+          (.leaf (bitSplice zeroChunk 0 (b != 0)))
+        rw [List.length_map, hcl2] at hpush
+        obtain ⟨c', hs, hct'⟩ := hpush
+        refine sim_some (v' := .bits (bs ++ [b != 0])) (n' := mixInNode c' (bs.length + 1)) ?_ ?_ ?_
+        · simp [applyOp, hlt]
+        · simp only [Impl.apply, hll, ge_iff_le, Nat.not_le.2 hlt, if_false, hz, beq_self_eq_true,
+            if_true, chunkWithBit_zeroNode]
+          simp only [mixInNode, hs, Option.bind_some, rebindRight]
+        · simp only [Impl.Repr, List.length_append, List.length_singleton]
+          refine ⟨hlt, c', rfl, ?_⟩
+          rw [packBits_append_new bs _ hz, List.map_append]
+          exact hct'
+      · have hj : bs.length / 256 < (packBits bs).length := by omega
+        obtain ⟨hg, hset⟩ := mix_splice hct (lenNode bs.length) _ hj
+        obtain ⟨c', hs, hct'⟩ := hset (bitSplice ((packBits bs)[bs.length / 256]) bs.length (b != 0))
+        have hzb : (bs.length % 256 == 0) = false := by simp [hz]
+        refine sim_some (v' := .bits (bs ++ [b != 0])) (n' := mixInNode c' (bs.length + 1)) ?_ ?_ ?_
+        · simp [applyOp, hlt]
+        · simp only [Impl.apply, hll, ge_iff_le, Nat.not_le.2 hlt, if_false, hzb,
+            Bool.false_eq_true]
+          simp only [mixInNode, hg, Option.bind_some, chunkWithBit_eq, Node.root, hs, rebindRight]
+        · simp only [Impl.Repr, List.length_append, List.length_singleton]
+          refine ⟨hlt, c', rfl, ?_⟩
+          rw [packBits_append_same bs _ hz hj]
+          exact hct'
+    · exact sim_none (by simp [applyOp, hlt]) (by simp [Impl.apply, hll, Nat.le_of_not_lt hlt])
+  | bits _ => exact sim_none (by simp [applyOp]) (by simp [Impl.apply, hll])
+  | bytes _ => exact sim_none (by simp [applyOp]) (by simp [Impl.apply, hll])
+  | seq _ => exact sim_none (by simp [applyOp]) (by simp [Impl.apply, hll])
+  | un _ _ => exact sim_none (by simp [applyOp]) (by simp [Impl.apply, hll])
+  | none => exact sim_none (by simp [applyOp]) (by simp [Impl.apply, hll])
+
+theorem sim_bitlist_pop (H : Hash) (lim : Nat) (hlim : lim < 2 ^ 256) (bs : List Bool) (n : Node)
+    (h : Impl.Repr H (.bitlist lim) (.bits bs) n) :
+    Sim H (.bitlist lim) (.bits bs) n .pop := by
+  simp only [Impl.Repr] at h
+  obtain ⟨hlen, c, rfl, hct⟩ := h
+  have hll := listLength_mixin H c bs.length (by omega)
+  by_cases hpos : bs.length = 0
+  · exact sim_none (by simp [applyOp, hpos]) (by simp only [Impl.apply, hll]; simp [hpos])
+  · have ha : applyOp (.bitlist lim) (.bits bs) .pop = some (.bits bs.dropLast) := by
+      simp [applyOp, hpos]
+    have hcl := packBits_length' bs
+    have hj : (bs.length - 1) / 256 < (packBits bs).length := by omega
+    have hle := ct_length_le hct
+    rw [List.length_map] at hle
+    have hpow : 2 ^ (getDepth ((lim + 255) / 256) + 1) = 2 * 2 ^ getDepth ((lim + 255) / 256) := by
+      rw [Nat.pow_succ]; omega
+    have hnotge : ¬ (bs.length - 1) / 256 ≥ 2 ^ (getDepth ((lim + 255) / 256) + 1) := by omega
+    by_cases hz : (bs.length - 1) % 256 = 0
+    · obtain ⟨hrm, hidx⟩ := packBits_pop_remove bs (by omega) hz
+      have hcne : (packBits bs).map Node.leaf ≠ [] := by
+        intro e
+        have := congrArg List.length e
+        simp only [List.length_map, List.length_nil] at this
+        omega
+      obtain ⟨c1, hs, -, hfin⟩ := ct_popFinish hct hcne (lenNode bs.length) (IsZero.summary 0)
+      rw [List.length_map, ← hidx] at hs hfin
+      obtain ⟨c2, hpf, hct'⟩ := hfin ((bs.length - 1) / 256 % 2 == 0 && true) (bs.length - 1)
+      refine sim_some ha (n' := mixInNode c2 (bs.length - 1)) ?_ ?_
+      · simp only [Impl.apply, hll, hpos, if_false, hnotge, hz, beq_self_eq_true, if_true]
+        simp only [mixInNode] at hs hpf ⊢
+        simp only [hs, Option.bind_some, hpf]
+      · simp only [Impl.Repr, List.length_dropLast]
+        refine ⟨by omega, c2, rfl, ?_⟩
+        rw [hrm, List.map_dropLast]
+        exact hct'
+    · obtain ⟨hg, hset⟩ := mix_splice hct (lenNode bs.length) _ hj
+      obtain ⟨c', hs, hct'⟩ := hset (bitSplice ((packBits bs)[(bs.length - 1) / 256])
+        (bs.length - 1) false)
+      have hzb : ((bs.length - 1) % 256 == 0) = false := by simp [hz]
+      refine sim_some ha (n' := mixInNode c' (bs.length - 1)) ?_ ?_
+      · simp only [Impl.apply, hll, hpos, if_false, hnotge, hzb, Bool.false_eq_true]
+        simp only [mixInNode, hg, Option.bind_some, chunkWithBit_eq, Node.root, hs,
+          Bool.and_false, popFinish_false]
+      · simp only [Impl.Repr, List.length_dropLast]
+        refine ⟨by omega, c', rfl, ?_⟩
+        rw [packBits_pop_same bs (by omega) hz hj]
+        exact hct'
+
+/-! ## 6. every type, every operation -/
+
+/-- the simulation of one operation, for every type and every operation -/
+theorem step_sim (H : Hash) (t : Ty) (hwf : t.wf = true) (hlim : limitsOk t = true) (v : Val)
+    (n : Node) (h : Impl.Repr H t v n) (op : Op) : Sim H t v n op := by
+  cases t with
+  | uint nb =>
+    cases v <;> try (simp only [Impl.Repr] at h; done)
+    cases op <;> exact sim_none rfl rfl
+  | bool =>
+    cases v <;> try (simp only [Impl.Repr] at h; done)
+    cases op <;> exact sim_none rfl rfl
+  | bitvector len =>
+    cases v <;> try (simp only [Impl.Repr] at h; done)
+    cases op with
+    | set i x => exact sim_bitvector_set H len _ n h i x
+    | append x => exact sim_none rfl rfl
+    | pop => exact sim_none rfl rfl
+    | change sel x => exact sim_none rfl rfl
+  | bitlist lim =>
+    cases v <;> try (simp only [Impl.Repr] at h; done)
+    simp [limitsOk] at hlim
+    cases op with
+    | set i x => exact sim_bitlist_set H lim hlim _ n h i x
+    | append x => exact sim_bitlist_append H lim hlim _ n h x
+    | pop => exact sim_bitlist_pop H lim hlim _ n h
+    | change sel x => exact sim_none rfl rfl
+  | bytevector len =>
+    cases v <;> try (simp only [Impl.Repr] at h; done)
+    cases op <;> exact sim_none rfl rfl
+  | bytelist lim =>
+    cases v <;> try (simp only [Impl.Repr] at h; done)
+    cases op <;> exact sim_none rfl rfl
+  | vector et len =>
+    cases v <;> try (simp only [Impl.Repr] at h; done)
+    simp [Ty.wf] at hwf
+    cases op with
+    | set i x => exact sim_vector_set H et len hwf.2 _ n h i x
+    | append x => exact sim_none rfl rfl
+    | pop => exact sim_none rfl rfl
+    | change sel x => exact sim_none rfl rfl
+  | list et lim =>
+    cases v <;> try (simp only [Impl.Repr] at h; done)
+    simp [Ty.wf] at hwf
+    simp [limitsOk] at hlim
+    cases op with
+    | set i x => exact sim_list_set H et lim hwf hlim.1 _ n h i x
+    | append x => exact sim_list_append H et lim hwf hlim.1 _ n h x
+    | pop => exact sim_list_pop H et lim hwf hlim.1 _ n h
+    | change sel x => exact sim_none rfl rfl
+  | container fs =>
+    cases v <;> try (simp only [Impl.Repr] at h; done)
+    simp [Ty.wf] at hwf
+    cases op with
+    | set i x =>
+      simp only [Impl.Repr] at h
+      obtain ⟨ns, hf, hct⟩ := h
+      exact sim_container_set H fs hwf.2 _ n ns hf hct i x
+    | append x => exact sim_none rfl rfl
+    | pop => exact sim_none rfl rfl
+    | change sel x => exact sim_none rfl rfl
+  | union hasNone opts =>
+    cases v <;> try (simp only [Impl.Repr] at h; done)
+    simp [Ty.wf] at hwf
+    cases op with
+    | set i x => exact sim_none rfl rfl
+    | append x => exact sim_none rfl rfl
+    | pop => exact sim_none rfl rfl
+    | change sel x => exact sim_union_change H hasNone opts hwf.2 _ _ n sel x
+
+variable (H : Hash)
+
+/-- 1. a successful tree-level operation is the value-level operation, and lands in `Repr` -/
+theorem step_repr (t : Ty) (hwf : t.wf = true) (hlim : limitsOk t = true) (v : Val) (n : Node)
+    (hr : Impl.Repr H t v n) (op : Op) (n' : Node) (h : Impl.apply H t n op = some n') :
+    ∃ v', applyOp t v op = some v' ∧ Impl.Repr H t v' n' := by
+  have hs := step_sim H t hwf hlim v n hr op
+  unfold Sim at hs
+  cases ha : applyOp t v op with
+  | none => rw [ha] at hs; simp only at hs; rw [hs] at h; cases h
+  | some v' =>
+    rw [ha] at hs
+    obtain ⟨n'', hn, hr'⟩ := hs
+    rw [h] at hn
+    cases hn
+    exact ⟨v', rfl, hr'⟩
+
+/-- 2. whenever the value-level operation is allowed, the tree-level operation succeeds (and its
+    result represents the new value) -/
+theorem step_ok (t : Ty) (hwf : t.wf = true) (hlim : limitsOk t = true) (v : Val) (n : Node)
+    (hr : Impl.Repr H t v n) (op : Op) (v' : Val) (h : applyOp t v op = some v') :
+    ∃ n', Impl.apply H t n op = some n' ∧ Impl.Repr H t v' n' := by
+  have hs := step_sim H t hwf hlim v n hr op
+  unfold Sim at hs
+  rw [h] at hs
+  exact hs
+
+/-- C14 at the model level: the tree-level operation fails (raises; no new state) exactly when the
+    value-level operation violates a constraint -/
+theorem step_none_iff (t : Ty) (hwf : t.wf = true) (hlim : limitsOk t = true) (v : Val) (n : Node)
+    (hr : Impl.Repr H t v n) (op : Op) :
+    Impl.apply H t n op = none ↔ applyOp t v op = none := by
+  have hs := step_sim H t hwf hlim v n hr op
+  unfold Sim at hs
+  constructor
+  · intro h
+    cases ha : applyOp t v op with
+    | none => rfl
+    | some v' =>
+      rw [ha] at hs
+      obtain ⟨n', hn, _⟩ := hs
+      rw [h] at hn; cases hn
+  · intro h
+    rw [h] at hs
+    exact hs
+
+/-! ## 7. histories -/
+
+/-- run a sequence of operations on a backing tree; a failing operation (exception in Python)
+    leaves the view as it was -/
+def runImpl (t : Ty) : Node → List Op → Node
+  | n, [] => n
+  | n, op :: ops =>
+    match Impl.apply H t n op with
+    | some n' => runImpl t n' ops
+    | none => runImpl t n ops
+
+/-- run a sequence of operations on a plain value; a disallowed operation is skipped -/
+def runSpec (t : Ty) : Val → List Op → Val
+  | v, [] => v
+  | v, op :: ops =>
+    match applyOp t v op with
+    | some v' => runSpec t v' ops
+    | none => runSpec t v ops
+
+/-- after ANY sequence of mutations the backing tree represents exactly the value the sequence
+    implies -/
+theorem history_repr (t : Ty) (hwf : t.wf = true) (hlim : limitsOk t = true) (ops : List Op) :
+    ∀ (v₀ : Val) (n₀ : Node), Impl.Repr H t v₀ n₀ →
+      Impl.Repr H t (runSpec t v₀ ops) (runImpl H t n₀ ops) := by
+  induction ops with
+  | nil => intro v₀ n₀ h; exact h
+  | cons op ops ih =>
+    intro v₀ n₀ h
+    have hs := step_sim H t hwf hlim v₀ n₀ h op
+    unfold Sim at hs
+    cases ha : applyOp t v₀ op with
+    | none =>
+      rw [ha] at hs
+      simp only at hs
+      simp only [runSpec, runImpl, ha, hs]
+      exact ih v₀ n₀ h
+    | some v' =>
+      rw [ha] at hs
+      obtain ⟨n', hn, hr'⟩ := hs
+      simp only [runSpec, runImpl, ha, hn]
+      exact ih v' n' hr'
+
+/-- ... it has the spec hash tree root of that value ... -/
+theorem history_root (t : Ty) (hwf : t.wf = true) (hlim : limitsOk t = true) (ops : List Op)
+    (v₀ : Val) (n₀ : Node) (h : Impl.Repr H t v₀ n₀) :
+    (runImpl H t n₀ ops).root H = Spec.htr H t (runSpec t v₀ ops) :=
+  repr_root H t _ _ hwf (history_repr H t hwf hlim ops v₀ n₀ h)
+
+/-- ... and reads back (through the view API) exactly that value -/
+theorem history_read (t : Ty) (hwf : t.wf = true) (hlim : limitsOk t = true) (ops : List Op)
+    (v₀ : Val) (n₀ : Node) (h : Impl.Repr H t v₀ n₀) :
+    Impl.readVal H t (runImpl H t n₀ ops) = some (runSpec t v₀ ops) :=
+  repr_read H t _ _ hwf hlim (history_repr H t hwf hlim ops v₀ n₀ h)
+
+/-- the same starting from a constructed view: indistinguishable from a fresh value -/
+theorem history_fresh (t : Ty) (hwf : t.wf = true) (hlim : limitsOk t = true) (ops : List Op)
+    (v₀ : Val) (n₀ : Node) (hc : Impl.construct H t v₀ = some n₀)
+    (m : Node) (hm : Impl.construct H t (runSpec t v₀ ops) = some m) :
+    (runImpl H t n₀ ops).root H = m.root H ∧
+      Impl.readVal H t (runImpl H t n₀ ops) = Impl.readVal H t m := by
+  have h0 := construct_repr H t v₀ n₀ hwf hc
+  have hm' := construct_repr H t _ m hwf hm
+  constructor
+  · rw [history_root H t hwf hlim ops v₀ n₀ h0, repr_root H t _ m hwf hm']
+  · rw [history_read H t hwf hlim ops v₀ n₀ h0, repr_read H t _ m hwf hlim hm']
+
 end Rmk.StepRepr
